@@ -793,6 +793,9 @@ func (e *Enc) goStmt(st *State, ins *ssa.Go) {
 	}
 	ct, key := e.calleeContract(c)
 	ok := ct != nil && !ct.MayPanic && len(ct.PanicsWhen) == 0 && (ct.Trusted || e.isInternalKey(key) || strings.HasPrefix(key, "functype:") || strings.HasPrefix(key, "func:"))
+	if fn := c.StaticCallee(); fn != nil && startsWithRecover(fn) {
+		ok = true // the goroutine's function recovers every panic raised in it
+	}
 	goal := TFalse
 	if ok {
 		goal = TTrue
@@ -852,6 +855,33 @@ func (P *Prog) usesTrace(x SExpr, depth int) bool {
 		if fn := P.Spec.Funs[c]; fn != nil && fn.Body != nil && depth < 6 {
 			if P.usesTrace(fn.Body, depth+1) {
 				return true
+			}
+		}
+	}
+	return false
+}
+
+// startsWithRecover: the function defers, in its entry block, a function that calls recover().
+func startsWithRecover(fn *ssa.Function) bool {
+	if len(fn.Blocks) == 0 {
+		return false
+	}
+	for _, ins := range fn.Blocks[0].Instrs {
+		d, ok := ins.(*ssa.Defer)
+		if !ok {
+			continue
+		}
+		g := d.Call.StaticCallee()
+		if g == nil {
+			continue
+		}
+		for _, b := range g.Blocks {
+			for _, i2 := range b.Instrs {
+				if c, ok := i2.(*ssa.Call); ok {
+					if bi, ok := c.Call.Value.(*ssa.Builtin); ok && bi.Name() == "recover" {
+						return true
+					}
+				}
 			}
 		}
 	}
